@@ -28,7 +28,7 @@ theorem choiceStage_err (cfg : RunCfg) (e : Experiment) (env : Env) (pop : List 
   | cons x xs =>
       simp only [hlv, bind_err_iff] at h
       rcases h with h | ⟨key, _, h⟩
-      · rcases keyOf_err _ _ _ _ h with ⟨_, n, hn, hnone⟩ | hd
+      · rcases keyOf_err _ _ _ _ _ h with ⟨_, n, hn, hnone⟩ | hd
         · have := hb n (by rw [hlv]; exact hn)
           simp [hnone] at this
         · right; subst hd; rfl
